@@ -182,6 +182,7 @@ def case_grid(mon: Monitor, rng: random.Random, given=None) -> None:
     coord_max = scale
     d = max(1e-9, 8 * math.ulp(coord_max))
     strict_band = d < 5e-9
+    shared_cache = {}  # one caller-supplied geobox_cache for all queries of this grid: later queries find tiles of earlier ones in it and add their own
     for qn in range(6):
         aligned = qn % 2 == 0
         sliver = 0.0
@@ -204,7 +205,7 @@ def case_grid(mon: Monitor, rng: random.Random, given=None) -> None:
         if xs[1] - xs[0] < 1e-5 or ys[1] - ys[0] < 1e-5:
             continue
         q = BoundingBox(xs[0], ys[0], xs[1], ys[1], crs)
-        cache = {} if rng.random() < 0.5 else None
+        cache = shared_cache if rng.random() < 0.5 else None
         res, e = call(lambda: list(gs.tiles(q, cache)))
         if e is not None:
             mon.fail("GridSpec.tiles", {**desc, "query": tuple(q.bbox), "exc": e}, key="tiles-raises", cls=cls)
@@ -216,6 +217,11 @@ def case_grid(mon: Monitor, rng: random.Random, given=None) -> None:
         mustnot = {i for i, b in boxes.items() if min(ov(b)) < hi}
         okq = must <= got and not (got & mustnot) and all(max(abs(i[0]), abs(i[1])) <= W + 1 for i in got)
         okq = okq and all(g == gs[i] for i, g in res)
+        # every tile handed out - fresh or from the cache - is its own tile in every respect, footprint included
+        okq = okq and all(all(rel_eq(p_, q_, scale) for p_, q_ in zip(g.extent.geom.bounds, model_fp(spec, *i))) for i, g in res if max(abs(i[0]), abs(i[1])) <= W + 1)
+        if cache is not None:
+            okq = okq and all(cache.get(tuple(i)) is g or cache.get(i) is g for i, g in res)
+            mon.obs["queries_through_a_shared_geobox_cache"] += 1
         ib, e2 = call(gs.idx_bounds, q)
         if e2 is None and okq:
             okq = {(ix, iy) for ix in range(ib[0], ib[2]) for iy in range(ib[1], ib[3])} == got
@@ -304,7 +310,15 @@ def case_polygon(mon: Monitor, rng: random.Random) -> None:
             pts = [list(poly.bounds), shape_kind]
         query = geom.Geometry(poly, crs)
         poly_native = poly
-    res, e = call(lambda: list(gs.tiles_from_geopolygon(query)))
+    pcache = None
+    if rng.random() < 0.5:
+        # the caller's geobox_cache already holds tiles from an earlier query next door (whose footprints have been looked at, as the polygon filter itself does)
+        pcache = {}
+        b0 = poly_native.bounds
+        near = geom.Geometry(sg.box(b0[0] - 1.3 * tw, b0[1] - 0.2 * th, b0[0] + 0.4 * tw, b0[1] + 0.7 * th), crs if not cross else gs.crs)
+        call(lambda: [g.extent for _i, g in gs.tiles_from_geopolygon(near, geobox_cache=pcache)])
+        mon.obs["polygon_queries_through_a_used_geobox_cache"] += 1
+    res, e = call(lambda: list(gs.tiles_from_geopolygon(query, geobox_cache=pcache) if pcache is not None else gs.tiles_from_geopolygon(query)))
     if e is not None:
         return mon.fail("GridSpec.tiles_from_geopolygon", {**desc, "poly": pts, "exc": e}, key="polygon-query-raises")
     got = {tuple(i) for i, _ in res}
